@@ -183,6 +183,12 @@ def gen(rng, tier):
                 if c["name"] in ("f", "g"):
                     c["values"] = ["" if v in ("a", "p") else v for v in c["values"]]
             kind_ += "/empty-string-level"
+        if rng.random() < 0.08:
+            # a column the formula does not use, missing on every row of one cell: no observation is lost for that
+            cell = (fr["columns"][4]["values"][0], fr["columns"][5]["values"][0])
+            fr["columns"].append(dm.col("unused_note", "float", [None if (a_, b_) == cell else "1" for a_, b_ in
+                                                                  zip(fr["columns"][4]["values"], fr["columns"][5]["values"])]))
+            kind_ += "/unused-missing-cell"
         cases.append({"formula": f, "frame": fr, "na": "drop", "kind": kind_,
                       "family": [list(t) for t in fam], "icpt": icpt})
     return cases
@@ -353,6 +359,9 @@ def oracle(c):
     if d.common is None:
         return None
     X = np.asarray(d.common.design_matrix, dtype=float)
+    if X.shape[0] != len(df):
+        return (f"{c['formula']!r}: the design has {X.shape[0]} rows for {len(df)} observations that are complete in "
+                f"every variable the formula uses")
     # the formula's own terms (extra helper terms added by formulae are not part of the model space)
     own = [":".join(t) for t in []]
     names = c.get("names") or [t.strip() for t in c["formula"].split("~", 1)[1].split("+") if t.strip() not in ("0", "1")]
